@@ -458,8 +458,8 @@ func rewriteSwitch(x *ast.SwitchStmt, info *types.Info, fset *token.FileSet, fil
 var cmpFuncs = map[string]string{ // pkgpath.Func -> wrapper kind
 	"bytes.Equal": "BB", "bytes.Compare": "BB", "bytes.HasPrefix": "BB", "bytes.HasSuffix": "BB", "bytes.Contains": "BB", "bytes.Index": "BB", "bytes.EqualFold": "BB",
 	"strings.Compare": "SS", "strings.EqualFold": "SS", "strings.HasPrefix": "SS", "strings.HasSuffix": "SS", "strings.Contains": "SS", "strings.Index": "SS",
-	"reflect.DeepEqual":             "AA",
-	"slices.Contains": "W2", "slices.Index": "W2", "slices.Equal": "W2", "slices.Compare": "W2", "sort.SearchStrings": "W2", "slices.BinarySearch": "W2R2",
+	"reflect.DeepEqual": "AA",
+	"slices.Contains":   "W2", "slices.Index": "W2", "slices.Equal": "W2", "slices.Compare": "W2", "sort.SearchStrings": "W2", "slices.BinarySearch": "W2R2",
 	"crypto/subtle.ConstantTimeCompare": "CT", "crypto/hmac.Equal": "CT",
 }
 
